@@ -36,6 +36,8 @@ def get_transform(name):
             params = {}
         if "preserve" in params:
             return lambda s: f(s, preserve=frozenset())
+        if "root_is_static" in params:
+            return lambda s: f(s, root_is_static=True)
         return f
     if name.startswith("format_code"):
         import pyrefact
@@ -177,3 +179,207 @@ def tv_replay(case):
         failure = "trace" if s2 == "ok" else ("timeout" if s2 == "timeout" else "raises:%s" % s2.split(":", 1)[-1])
         r["key"] = "%s|%s" % (case["oid"], failure)
     return r
+
+
+# ---------------------------------------------------------------------------------------------------
+# pool obligations other than behaviour preservation (symbolic-literal run of T, then a text-level oracle)
+
+
+def ob_prop(skeleton, transform, mode, budget_s=60.0, max_paths=400, annotate=None):
+    """mode: 'valid' (C03-e: output parses), 'total' (C04-f: nothing escapes), 'pure' (C05: second call and
+    warm caches give the same text, caches stay faithful), 'converge' (C09-c: fixed point within 5
+    applications, no revisits)."""
+    import ast as _ast
+    import time as _time
+
+    from . import instrument, sym
+
+    sk = Skeleton.from_json(skeleton) if isinstance(skeleton, dict) else skeleton
+    T = get_transform(transform)
+    stats = {"changed": 0, "crash": 0, "steps": []}
+
+    def run(text):
+        try:
+            return T(text)
+        except instrument.MarkerEscape:
+            raise sym.Unsupported("marker escaped to sympy")
+
+    def harness(eng):
+        sk.declare(eng)
+        text = sk.text
+        if mode == "total":
+            t0 = _time.perf_counter()
+            try:
+                out = run(text)
+            except Exception as e:  # noqa: BLE001
+                eng.claim(False, info={"what": "raises", "exception": type(e).__name__, "message": str(e)[:200]})
+                return
+            except SystemExit as e:
+                eng.claim(False, info={"what": "raises", "exception": "SystemExit", "message": str(e)[:100]})
+                return
+            if not isinstance(out, str):
+                eng.claim(False, info={"what": "returned %s instead of a string" % type(out).__name__})
+                return
+            if out != text:
+                stats["changed"] += 1
+            eng.claim(True)
+            return
+        try:
+            out = run(text)
+        except Exception:  # noqa: BLE001 - C04's business
+            stats["crash"] += 1
+            return
+        if out != text:
+            stats["changed"] += 1
+        if mode == "valid":
+            try:
+                _ast.parse(out)
+                eng.claim(True)
+            except SyntaxError as e:
+                eng.claim(False, info={"what": "output does not parse", "error": str(e)[:120], "after": out})
+            return
+        if mode == "pure":
+            from pyrefact import core
+
+            # cache faithfulness: every tree handed out by core.parse on this path still dumps like a fresh parse
+            bad = []
+            for txt, tree in list(eng.path_state.get("parsed", {}).items()):
+                try:
+                    fresh = instrument.SHADOW_AST.parse(txt)
+                except SyntaxError:
+                    continue
+                if _ast.dump(tree) != _ast.dump(fresh):
+                    bad.append(txt[:80])
+            if bad:
+                eng.claim(False, info={"what": "cached tree no longer matches its source text", "texts": bad[:2]})
+                return
+            try:
+                out2 = run(text)
+                other = get_transform("format_code:safe=1")(text) if not transform.startswith("format_code") else None
+                out3 = run(text)
+            except Exception:  # noqa: BLE001
+                stats["crash"] += 1
+                return
+            eng.claim(out2 == out and out3 == out,
+                      info={"what": "second / third call on warm caches differs", "first": out, "second": out2, "third": out3})
+            return
+        if mode == "converge":
+            seq = [text, out]
+            try:
+                for _ in range(5):
+                    seq.append(run(seq[-1]))
+            except Exception:  # noqa: BLE001
+                stats["crash"] += 1
+                return
+            fp = next((i for i in range(1, len(seq)) if seq[i] == seq[i - 1]), None)
+            stats["steps"].append(fp)
+            # seq[i] = f^i(x); fixed point reached within five applications: f^6(x) == f^5(x) at the latest
+            revisit = any(seq[i] == seq[j] for i in range(len(seq)) for j in range(i + 2, len(seq)) if seq[i] != seq[i + 1])
+            eng.claim(fp is not None and fp <= 6 and not revisit,
+                      info={"what": "no fixed point within five applications" if fp is None else "oscillation",
+                            "sequence": [s[-200:] for s in seq]})
+            return
+        raise ValueError(mode)
+
+    def track_parse(eng):
+        if mode != "pure":
+            return
+        from pyrefact import core
+
+        parsed = eng.path_state.setdefault("parsed", {})
+        orig = getattr(core.parse, "__vk_orig__", core.parse)
+
+        def parse(source_code):
+            tree = orig(source_code)
+            parsed[source_code] = tree
+            return tree
+
+        parse.__vk_orig__ = orig
+        parse.cache_clear = orig.cache_clear
+        core.parse = parse
+
+    eng = sym.Engine(budget_s=budget_s, max_paths=max_paths, max_cex=3)
+    eng.path_hooks.append(instrument.reset_caches)
+    eng.path_hooks.append(track_parse)
+    try:
+        res = eng.explore(harness)
+    finally:
+        if mode == "pure":
+            from pyrefact import core
+
+            core.parse = getattr(core.parse, "__vk_orig__", core.parse)
+    d = res.as_dict()
+    d["notes"] = {"changed": stats["changed"], "crash": stats["crash"], "branched_on": d["branches"],
+                  "fixed_point_after": stats["steps"][:4]}
+    d["fired"] = stats["changed"]
+    if stats["crash"] and mode != "total":
+        d["allow_vacuous"] = True
+    if not stats["changed"]:
+        d["trivial"] = True
+    return d
+
+
+def prop_case(ob, r, cex):
+    info = cex.get("info") or {}
+    what = info.get("what", "?")
+    if what == "raises":
+        what = "raises:%s" % info.get("exception")
+    return {"kind": "prop", "mode": ob.params["mode"], "skeleton": ob.params["skeleton"], "transform": ob.params["transform"],
+            "model": cex["model"], "key": "%s|%s" % (ob.oid, what)}
+
+
+def prop_replay(case):
+    import ast as _ast
+
+    from . import symtv
+
+    sk = Skeleton.from_json(case["skeleton"])
+    T = get_transform(case["transform"])
+    text = symtv.concrete_program(sk.text, case["model"])
+    mode = case["mode"]
+    if mode == "total":
+        try:
+            out = T(text)
+        except BaseException as e:  # noqa: BLE001
+            return {"reproduced": True, "key": "%s|raises:%s" % (case["oid"], type(e).__name__),
+                    "detail": "%s raised %r on:\n%s" % (case["transform"], e, text[-700:])}
+        return {"reproduced": not isinstance(out, str), "detail": "returned %r" % type(out)}
+    out = T(text)
+    if mode == "valid":
+        try:
+            _ast.parse(out)
+            return {"reproduced": False, "detail": "output parses"}
+        except SyntaxError as e:
+            return {"reproduced": True, "detail": "%s turned valid input into text that does not parse (%s):\n%s\n--- output:\n%s" % (
+                case["transform"], e, text[-600:], out[-600:])}
+    if mode == "pure":
+        from pyrefact import core
+
+        parsed = {}
+        orig = core.parse
+
+        def parse(source_code):
+            tree = orig(source_code)
+            parsed[source_code] = tree
+            return tree
+
+        core.parse = parse
+        try:
+            out2 = T(text)
+            out3 = T(text)
+        finally:
+            core.parse = orig
+        stale = [t[:60] for t, tree in parsed.items() if _ast.dump(tree) != _ast.dump(_ast.parse(t))]
+        bad = out2 != out or out3 != out or bool(stale)
+        return {"reproduced": bad, "detail": "%s called three times on the same text: equal=%s, stale cached trees: %s\n%s" % (
+            case["transform"], (out2 == out, out3 == out), stale[:2], text[-400:])}
+    if mode == "converge":
+        seq = [text, out]
+        for _ in range(5):
+            seq.append(T(seq[-1]))
+        fp = next((i for i in range(1, len(seq)) if seq[i] == seq[i - 1]), None)
+        revisit = any(seq[i] == seq[j] for i in range(len(seq)) for j in range(i + 2, len(seq)) if seq[i] != seq[i + 1])
+        bad = fp is None or fp > 6 or revisit
+        return {"reproduced": bad, "detail": "%s applied 6 times: fixed point after %s application(s), revisit=%s\n%s" % (
+            case["transform"], None if fp is None else fp - 1, revisit, "\n-----\n".join(s[-300:] for s in seq[:4]))}
+    raise ValueError(mode)
